@@ -15,6 +15,7 @@ import Rl.LineBuffer
 import Rl.Undo
 import Rl.KillRing
 import Rl.History
+import Rl.RenderOp
 namespace Rl
 
 inductive InputMode | command | insert | replace
@@ -82,6 +83,8 @@ structure Ed where
   obs : List Obs          -- most recent first
   validatorCalls : List Text  -- most recent first
   suspends : Nat := 0
+  /-- C02: the calls made on the renderer, most recent first (a pure log: nothing reads it) -/
+  render : List RenderOp := []
 
 /-- state + early exit -/
 def EM (α : Type) : Type := Ed → Except (Outcome × Ed) (α × Ed)
@@ -193,34 +196,45 @@ def highlightCharStep : EM Bool := fun s =>
   else .ok (false, s)
 
 /-- column reached after printing `t` from column 0 on a `cols`-wide terminal
-    (`calculate_position(..).col` for text without line breaks, tabs or escape sequences) -/
+    (`calculate_position(..).col` for text without tabs or escape sequences; since the repair of
+    the pending-wrap column the value `cols` is kept when the text ends exactly at the margin) -/
 def promptColOf (t : Text) : Nat :=
-  let col := (S.seg t).foldl (fun col g =>
-    let w := U.width g
-    if col + w > cfg.cols then w else col + w) 0
-  if col == cfg.cols then 0 else col
+  (S.seg t).foldl (fun col g =>
+    if g == ['\n'] then 0
+    else
+      let w := U.width g
+      if col + w > cfg.cols then w else col + w) 0
+
+/-- C02: append to the render log -/
+def logRender (f : Ed → RenderOp) : EM Unit := modify (fun s => { s with render := f s :: s.render })
 
 def refreshLine : EM Unit := do
   modify (fun s => { s with hint := computeHint cfg s })
   let _ ← highlightCharStep cfg
   modify (fun s => { s with defaultPrompt := true, layoutPromptCol := promptColOf S U cfg cfg.prompt })
+  logRender (fun s => .refresh none s.line.buf s.line.pos s.hint)
 
-def refreshLineWithMsg : EM Unit := do
+/-- `msg` is the text displayed in place of the hint (C02 log only) -/
+def refreshLineWithMsg (msg : Option Text := none) : EM Unit := do
   modify (fun s => { s with hint := none })
   let _ ← highlightCharStep cfg
   modify (fun s => { s with defaultPrompt := true, layoutPromptCol := promptColOf S U cfg cfg.prompt })
+  logRender (fun s => .refresh none s.line.buf s.line.pos msg)
 
+/-- `prompt` is the dynamic prompt text -/
 def refreshPromptAndLine (prompt : Text) : EM Unit := do
   modify (fun s => { s with hint := computeHint cfg s })
   let _ ← highlightCharStep cfg
   modify (fun s => { s with defaultPrompt := false, layoutPromptCol := promptColOf S U cfg prompt })
+  logRender (fun s => .refresh (some prompt) s.line.buf s.line.pos s.hint)
 
 /-- `move_cursor`: a full refresh (without hint display, `self.hint` untouched) only when a
     character gets or loses its highlight; otherwise the layout's prompt size is reset to the
     default prompt's (when the cursor cell changes — approximated as always) -/
 def moveCursor : EM Unit := do
-  let _ ← highlightCharStep cfg
+  let hl ← highlightCharStep cfg
   modify (fun s => { s with layoutPromptCol := promptColOf S U cfg cfg.prompt })
+  logRender (fun s => .moveCursor s.line.buf s.line.pos hl)
 
 /-! ### custom bindings -/
 
@@ -237,7 +251,7 @@ def customBinding (keys : List KeyEvent) (n : Nat) (positive : Bool) : EM (Optio
   | none =>
     let o : Obs := { line := s.line.buf, pos := s.line.pos, mode := modeName cfg s,
                      hasHint := s.hint.isSome, keys, n, positive }
-    .ok (none, { s with obs := o :: s.obs })
+    .ok (none, { s with obs := o :: s.obs, render := .sync s.line.buf s.line.pos s.hint :: s.render })
 
 def hasDescendant (keys : List KeyEvent) : Bool :=
   cfg.binds.any (fun b => keys.isPrefixOf b.1)
@@ -267,9 +281,10 @@ def satMulAdd (a : Int) (d : Int) : Int :=
   let r := m + d
   if r > i16max then i16max else r
 
-/-- `emacs_digit_argument` -/
+/-- `format!("(arg: {}) ", self.num_args)` -/
 def argPrompt (n : Int) : Text := "(arg: ".toList ++ (toString n).toList ++ ") ".toList
 
+/-- `emacs_digit_argument` -/
 def emacsDigitLoop : Nat → EM KeyEvent
   | 0 => exit .fuel
   | fuel + 1 => do
@@ -751,12 +766,13 @@ def restore : EM Unit := do
 
 def editInsert (ch : Char) (n : Nat) : EM Unit := do
   match ← lb S U (LB.insert S U ch n) with
-  | some _ => do
+  | some push => do
+    let noPrevHint := (← get).hint.isNone
     -- both the fast path and the full refresh recompute the hint; the full refresh lays the line
     -- out after the default prompt (the fast path is only taken when that is already the case)
     modify (fun s => { s with hint := computeHint cfg s, layoutPromptCol := promptColOf S U cfg cfg.prompt })
-    let _ ← highlightCharStep cfg   -- evaluated by the fast-path guard or by refresh_line
-    pure ()
+    let hl ← highlightCharStep cfg   -- evaluated by the fast-path guard or by refresh_line
+    logRender (fun s => .insert ch n push s.line.buf s.line.pos s.hint noPrevHint hl)
   | none => pure ()
 
 def graphemeCount (t : Text) : Nat := (S.seg t).length
@@ -784,12 +800,14 @@ def editOverwriteChar (ch : Char) : EM Unit := do
   | none => pure ()
 
 def editYank (text : Text) (anchor : Anchor) (n : Nat) : EM Unit := do
-  if anchor == .after then do let _ ← lbQuiet (LB.moveForward S U 1); pure ()
+  let moved ← if anchor == .after then lbQuiet (LB.moveForward S U 1) else pure false
   match ← lb S U (LB.yank S U text n) with
   | some _ => do
     if cfg.vi then do let _ ← lbQuiet (LB.moveBackward S U 1); pure ()
     refreshLine S U cfg
-  | none => pure ()
+  | none =>
+    -- nothing was pasted: the cursor is put back (fix: edit_yank does not move the cursor when nothing is pasted)
+    if moved then do let _ ← lbQuiet (LB.moveBackward S U 1); pure ()
 
 def editYankPop (yankSize : Nat) (text : Text) : EM Unit := do
   let _ ← changesBegin
@@ -992,7 +1010,7 @@ def execute (cmd : Cmd) : EM Status := do
     else pure .proceed
   | .move .endOfLine => do editMove S U cfg (LB.moveEnd S U); pure .proceed
   | .move (.forwardChar n) => do editMove S U cfg (LB.moveForward S U n); pure .proceed
-  | .clearScreen => do refreshLine S U cfg; pure .proceed
+  | .clearScreen => do logRender (fun _ => .clearScreen); refreshLine S U cfg; pure .proceed
   | .nextHistory => do editHistoryNext S U cfg false; pure .proceed
   | .previousHistory => do editHistoryNext S U cfg true; pure .proceed
   | .lineUpOrPreviousHistory n => do
@@ -1062,7 +1080,7 @@ def execute (cmd : Cmd) : EM Status := do
   | .indent mvt => do
     if ← lb S U (LB.indent S U mvt cfg.indentSize false) then refreshLine S U cfg
     pure .proceed
-  | .interrupt => exit .interrupted
+  | .interrupt => do logRender (fun _ => .moveToEnd); exit .interrupted
   | _ => pure .proceed
 
 /-! ### `src/lib.rs` loops -/
@@ -1238,9 +1256,10 @@ def readline (ring : KillRing) (left right : Text) (input : Input) : Outcome × 
     mainLoop S U cfg (input.size + 2)
     -- `edit_move_buffer_end(ForcedRefresh)`
     editMove S U cfg (LB.moveBufferEnd S U)
+  -- `self.term.writeln()` in `readline_with`, whatever `readline_edit` returned (C02 log only)
   match prog s0 with
-  | .ok (_, s) => (.line s.line.buf, s)
-  | .error (o, s) => (o, s)
+  | .ok (_, s) => (.line s.line.buf, { s with render := .writeln :: s.render })
+  | .error (o, s) => (o, { s with render := .writeln :: s.render })
 
 end
 end Rl
